@@ -230,4 +230,170 @@ theorem lockPairs_acyclic' {pairs : List Pair} (hself : ∀ p ∈ pairs, p.1 ≠
       simp at hc
     · exact hac
 
+/-! ### soundness of `_is_path` -/
+
+structure SweepSound (pairs : List Pair) (source sink : Cand) (st : List Cand × Bool) : Prop where
+  reach : ∀ x ∈ st.1, x = source ∨ TransGen (fun a b => (a, b) ∈ pairs) source x
+  found : st.2 = true → TransGen (fun a b => (a, b) ∈ pairs) source sink
+
+theorem sweepFold_sound {pairs : List Pair} {source sink : Cand} (l : List Pair) (hl : ∀ e ∈ l, e ∈ pairs)
+    (st : List Cand × Bool) (h : SweepSound pairs source sink st) :
+    SweepSound pairs source sink (l.foldl (sweepStep sink) st) := by
+  induction l generalizing st with
+  | nil => exact h
+  | cons e es ih =>
+    rw [List.foldl_cons]
+    apply ih (fun e' he' => hl e' (List.mem_cons_of_mem _ he'))
+    unfold sweepStep
+    split
+    · exact h
+    · split
+      · rename_i hc
+        simp only [Bool.and_eq_true, List.contains_iff_mem, Bool.not_eq_true'] at hc
+        have he : (e.1, e.2) ∈ pairs := hl e (by simp)
+        have hreach2 : TransGen (fun a b => (a, b) ∈ pairs) source e.2 := by
+          rcases h.reach e.1 hc.1 with h1 | h1
+          · rw [← h1]; exact TransGen.single he
+          · exact TransGen.tail h1 he
+        refine ⟨?_, ?_⟩
+        · intro x hx
+          rcases List.mem_cons.1 hx with rfl | hx'
+          · exact Or.inr hreach2
+          · exact h.reach x hx'
+        · intro hf
+          simp only [beq_iff_eq] at hf
+          rw [← hf]; exact hreach2
+      · exact h
+
+theorem isPathFuel_sound {pairs : List Pair} {source sink : Cand} :
+    ∀ (f : Nat) (visited : List Cand), SweepSound pairs source sink (visited, false) →
+      isPathFuel pairs sink f visited = true → TransGen (fun a b => (a, b) ∈ pairs) source sink := by
+  intro f
+  induction f with
+  | zero => intro visited _ h; simp [isPathFuel] at h
+  | succ f ih =>
+    intro visited hs h
+    unfold isPathFuel at h
+    simp only at h
+    rw [pathSweep_eq] at h
+    have hs' := sweepFold_sound (source := source) pairs (fun e he => he) (visited, false) hs
+    cases hfound : (pairs.foldl (sweepStep sink) (visited, false)).2 with
+    | true => exact hs'.found hfound
+    | false =>
+      rw [hfound] at h
+      simp only [Bool.false_eq_true, if_false] at h
+      split at h
+      · simp at h
+      · apply ih _ _ h
+        exact ⟨hs'.reach, by simp⟩
+
+/-- **soundness of `_is_path`**: it answers True only when a chain of pairs leads from source to sink -/
+theorem isPath_sound {pairs : List Pair} {source sink : Cand} (h : isPath pairs source sink = true) :
+    TransGen (fun a b => (a, b) ∈ pairs) source sink := by
+  unfold isPath at h
+  apply isPathFuel_sound _ _ _ h
+  exact ⟨by simp, by simp⟩
+
+/-! ### `_lock_pairs` along a split of its input -/
+
+def lockStep (locked : List Pair) (p : Pair) : List Pair :=
+  if !isPath locked p.2 p.1 then locked ++ [p] else locked
+
+theorem lockPairs_eq (pairs : List Pair) : lockPairs pairs = pairs.foldl lockStep [] := rfl
+
+theorem lockFold_mono (l : List Pair) (acc : List Pair) {x : Pair} (hx : x ∈ acc) : x ∈ l.foldl lockStep acc := by
+  induction l generalizing acc with
+  | nil => exact hx
+  | cons p ps ih =>
+    rw [List.foldl_cons]
+    apply ih
+    unfold lockStep
+    split
+    · exact List.mem_append_left _ hx
+    · exact hx
+
+theorem lockFold_sub (l : List Pair) (acc : List Pair) {x : Pair} (hx : x ∈ l.foldl lockStep acc) : x ∈ acc ∨ x ∈ l := by
+  induction l generalizing acc with
+  | nil => exact Or.inl hx
+  | cons p ps ih =>
+    rw [List.foldl_cons] at hx
+    rcases ih _ hx with h | h
+    · unfold lockStep at h
+      split at h
+      · rcases List.mem_append.1 h with h' | h'
+        · exact Or.inl h'
+        · simp only [List.mem_singleton] at h'; exact Or.inr (by simp [h'])
+      · exact Or.inl h
+    · exact Or.inr (List.mem_cons_of_mem _ h)
+
+/-- a pair that is not locked in the end was refused because the pairs locked before it already lead
+    from its lower to its upper candidate -/
+theorem lockPairs_refused {pre post : List Pair} {p : Pair} (hnot : p ∉ lockPairs (pre ++ p :: post)) :
+    TransGen (fun a b => (a, b) ∈ lockPairs pre) p.2 p.1 ∧ ∀ e ∈ lockPairs pre, e ∈ pre := by
+  rw [lockPairs_eq, List.foldl_append, List.foldl_cons] at hnot
+  refine ⟨?_, fun e he => ?_⟩
+  · by_cases hp : isPath (lockPairs pre) p.2 p.1 = true
+    · exact isPath_sound hp
+    · exfalso
+      apply hnot
+      apply lockFold_mono
+      rw [← lockPairs_eq]
+      unfold lockStep
+      simp only [Bool.not_eq_true] at hp
+      rw [hp]
+      simp
+  · rw [lockPairs_eq] at he
+    rcases lockFold_sub _ _ he with h | h
+    · simp at h
+    · exact h
+
+/-- a chain from outside a set into it crosses the border somewhere -/
+theorem transGen_crossing {E : Cand → Cand → Prop} {S : Cand → Prop} {a b : Cand} (h : TransGen E a b)
+    (ha : ¬ S a) (hb : S b) : ∃ o s, E o s ∧ ¬ S o ∧ S s := by
+  induction h with
+  | single h => exact ⟨_, _, h, ha, hb⟩
+  | @tail m c _ hmc ih =>
+    by_cases hm : S m
+    · exact ih hm
+    · exact ⟨m, c, hmc, hm, hb⟩
+
+/-- the first place of `_build_ranking`, when it answers, has no locked defeat -/
+theorem buildRanking_first {locked : List Pair} {r : List Cand} (h : buildRanking locked = .ok r) :
+    ∃ c, r.head? = some c ∧ (∀ e ∈ locked, e.2 ≠ c) ∧ c ∈ locked.map (·.1) := by
+  unfold buildRanking at h
+  cases hb : buildLoop (locked.length + 1) locked [] with
+  | error e => rw [hb] at h; simp [bind, Except.bind] at h
+  | ok ranking =>
+    rw [hb] at h
+    simp only [bind, Except.bind] at h
+    unfold buildLoop at hb
+    cases hne : locked.isEmpty with
+    | true =>
+      have hnil : locked = [] := List.isEmpty_iff.1 hne
+      subst hnil
+      simp only [List.isEmpty_nil, if_true, Except.ok.injEq] at hb
+      subst hb
+      simp at h
+    | false =>
+      simp only [hne, Bool.false_eq_true, if_false] at hb
+      split at hb
+      · rename_i w' hwin
+        have hw : w' ∈ uniq ((locked.map (·.1)).filter (fun c => !(locked.map (·.2)).contains c)) := by
+          rw [hwin]; simp
+        rw [mem_uniq, List.mem_filter] at hw
+        have hpre := buildLoop_prefix _ _ _ _ hb
+        simp only [List.nil_append] at hpre
+        obtain ⟨t, rfl⟩ := hpre
+        refine ⟨w', ?_, ?_, hw.1⟩
+        · split at h
+          · simp only [Except.ok.injEq] at h; subst h; rfl
+          · simp at h
+        · intro e he hew
+          have : (locked.map (·.2)).contains w' = true :=
+            List.contains_iff_mem.2 (List.mem_map.2 ⟨e, he, hew⟩)
+          have h2 := hw.2
+          rw [this] at h2
+          simp at h2
+      · simp at hb
+
 end VL.Condorcet
